@@ -322,6 +322,18 @@ class NumpyModel:
             if (sl is not None and (r.ty in ('int', 'float', 'bool', 'FloatWithUnit') or sr == sl)) or \
                     (sr is not None and l.ty in ('int', 'float', 'bool', 'FloatWithUnit')):
                 out = out.w(symlen=sl if sl is not None else sr)
+        # row-major linear index in Horner form: ((i * n1 + j) * n2 + k)
+        if ty == 'ndarray' and o in ('*', '+'):
+            for a_, b_ in ((l, r), (r, l)):
+                if o == '*' and b_.ty == 'int' and a_.ty == 'ndarray':
+                    if a_.digit is not None and a_.ravel is None:
+                        out = out.w(ravel=([a_], [b_]))
+                    elif a_.ravel is not None and len(a_.ravel[0]) == len(a_.ravel[1]) + 1:
+                        out = out.w(ravel=(a_.ravel[0], a_.ravel[1] + [b_]))
+                    break
+                if o == '+' and a_.ravel is not None and len(a_.ravel[0]) == len(a_.ravel[1]) and b_.ty == 'ndarray' and b_.digit is not None and b_.ravel is None:
+                    out = out.w(ravel=(a_.ravel[0] + [b_], a_.ravel[1]))
+                    break
         # arithmetic with (a row of) a literal table remembers the table
         tb = [x.tbl if x.tbl is not None else (x.litconst if (x.ty == 'ndarray' and is_table(x.litconst)) else None) for x in (l, r)]
         if (tb[0] is None) != (tb[1] is None):
